@@ -75,7 +75,7 @@ impl Monitor for C05 {
             Tier::Thorough => 1 + 6 * (2 * SPAN as u64 + 1),
             Tier::Sanitizer => 2,
         };
-        vec![gen("arith", arith), gen("sessions", tier.pick(20_000, 2_000_000, 6)), gen("rx2-override", tier.pick(540, 20_000, 2)), gen("up-counter-exhausted", tier.pick(540, 20_000, 2)), gen("size-boundary", 3 * 9 * 8 * 2 * tier.pick(1, 20, 0))]
+        vec![gen("arith", arith), gen("sessions", tier.pick(20_000, 2_000_000, 6)), gen("rx2-override", tier.pick(540, 20_000, 2)), gen("up-counter-exhausted", tier.pick(540, 20_000, 2)), gen("size-boundary", 3 * 9 * 8 * 2 * tier.pick(1, 20, 0)), gen("buffer-255", tier.pick(90, 2_000, 0))]
     }
     fn rule(&self) -> String {
         "arith: verif_next_fcnt_down(last, wire) for all 2^16 wire values per `last` (quick: stride 97 within +-70000 of each of 6 boundaries plus the 129 values around each and None; thorough: every value within +-70000), compared with the statement's rule in 64-bit arithmetic. sessions: devices (nb/async/async+ClassC, 9 regions) with sessions created at chosen counters receive 40-120 frames (fresh gaps 1/2/16383/16384, 16385+, replay, stale, other-epoch, bit-flip, foreign key, oversized, MAC in FOpts/port 0, confirmed) in RX1/RX2/Class C; after every transaction the accepted counter, response, delivered payloads and MAC answers are compared with a reference acceptance model. Class = (start class, frame class, verdict, window kind, front-end).".into()
@@ -113,6 +113,7 @@ impl Monitor for C05 {
             "rx2-override" => rx2_override_case(idx, rng, col),
             "up-counter-exhausted" => exhausted_case(idx, rng, col),
             "size-boundary" => size_boundary_case(idx, rng, col),
+            "buffer-255" => buffer_255_case(idx, rng, col),
             _ => unreachable!(),
         }
     }
@@ -716,5 +717,63 @@ fn size_boundary_case(idx: u64, rng: &mut Prng, col: &mut Collector) {
         col.violation(&format!("C05|size-boundary|maximum-size-frame-not-accepted|{}|dr{}", reg.name(), dr), "an authentic fresh frame of exactly the regional maximum size for the data rate it was received at was not accepted", ctx);
     } else {
         col.event("size_boundary_max_accepted");
+    }
+}
+
+
+/// A device whose radio buffer is exactly 255 octets (the largest PHYPayload): a maximum-size
+/// downlink (MACPayload 250, PHYPayload 255) at a data rate that allows it must reach the MAC
+/// whole and be accepted. The async device is built directly, with `N = 255`.
+fn buffer_255_case(idx: u64, rng: &mut Prng, col: &mut Collector) {
+    use lorawan_device::async_device;
+    use std::cell::RefCell;
+    use std::rc::Rc;
+    let reg = regions::ALL[(idx % 9) as usize];
+    let classc = (idx / 9) % 2 == 1;
+    let phy_len: usize = *rng.pick(&[255usize, 255, 254, 200]);
+    let log: Log = Rc::new(RefCell::new(LogInner { tx_done_ms: 0, snr: 5, lead_ms: LEAD_MS, ..Default::default() }));
+    let srng = SRng { log: log.clone(), prng: Some(Prng::new(rng.next_u64())) };
+    let mut dev: async_device::Device<AsRadio<20, 0>, AsTimer, SRng, 255, 4> =
+        async_device::Device::new(region_config(reg, None), AsRadio { log: log.clone() }, AsTimer { log: log.clone() }, srng);
+    if classc {
+        dev.enable_class_c();
+    }
+    let net = Net { nwk: rng.arr(), app: rng.arr(), addr: rng.next_u32() };
+    let jm = lorawan_device::JoinMode::ABP {
+        nwkskey: lorawan_device::NwkSKey::from(net.nwk),
+        appskey: lorawan_device::AppSKey::from(net.app),
+        devaddr: lorawan_device::DevAddr::from_value(net.addr),
+    };
+    let _ = block_on(dev.join(&jm));
+    // fastest uplink rate so that RX1 (offset 0) is a 250-octet window in every region
+    let updr = if reg == regions::Reg::US915 { 4 } else { 5 };
+    dev.set_datarate(lorawan_device::region::DR::from(updr));
+    let payload = rng.bytes(phy_len - 13);
+    let frame = net.downlink(&Down { fcnt: 1, port: Some(10), payload: &payload, ..Default::default() });
+    assert_eq!(frame.len(), phy_len);
+    {
+        let mut l = log.borrow_mut();
+        l.rx_single_queue.push_back(Some(frame.clone()));
+        l.rx_single_queue.push_back(None);
+    }
+    let r = trap(|| block_on(dev.send(&[1, 2, 3], 1, false)));
+    let resp = match r {
+        Err(t) => {
+            col.violation(&format!("C05|panic|buffer-255|{}", short_loc(&t.loc)), "device with a 255-octet radio buffer panicked on a maximum-size downlink", json!({"msg": t.msg, "loc": t.loc, "region": reg.name(), "phy_len": phy_len}));
+            return;
+        }
+        Ok(r) => r,
+    };
+    let got = dev.take_downlink();
+    let ok = matches!(resp, Ok(async_device::SendResponse::DownlinkReceived(1))) && got.as_ref().map(|d| d.data.as_slice() == payload.as_slice() && d.fport == 10).unwrap_or(false);
+    col.eval(&format!("buffer-255|{}|phy{}|classc={}|{}", reg.name(), phy_len, classc, if ok { "accepted" } else { "not-accepted" }));
+    if ok {
+        col.event("buffer_255_max_frame_accepted");
+    } else {
+        col.violation(
+            &format!("C05|buffer-255|frame-not-accepted|phy={}", if phy_len == 255 { "255" } else { "<255" }),
+            "a device whose radio buffer holds exactly 255 octets did not accept an authentic fresh downlink that fits the window's data rate and the buffer",
+            json!({"region": reg.name(), "class_c": classc, "phy_payload_len": phy_len, "response": format!("{:?}", resp.as_ref().map_err(|_| "error")), "delivered_len": got.map(|d| d.data.len())}),
+        );
     }
 }
